@@ -424,6 +424,8 @@ pub struct Vm {
   pub heap: Ghost<Map<(InstRef, int), Value>>,
   /// ghost: the call this handler handed to resolve_call: (callee, argument count, operand stack at that moment)
   pub called: Ghost<Option<(Value, u8, Seq<Value>)>>,
+  /// ghost (ncall unit): height of the allocator's temporary-root stack
+  pub troots: Ghost<nat>,
   /// ghost (launchops unit): fibers handed to the run queue by a launch, in order
   pub launched: Ghost<Seq<int>>,
   /// ghost (iterops unit): the by-name invocation an iteration handler handed to Vm::invoke: (receiver, method name, argument count, stack)
@@ -491,7 +493,8 @@ impl Vm {
             final(self).fiber.used == old(self).fiber.used, final(self).fiber.pool == old(self).fiber.pool,
             final(self).fiber.handlers == old(self).fiber.handlers, final(self).fiber.error_in_handler == old(self).fiber.error_in_handler,
             final(self).cache == old(self).cache, final(self).heap == old(self).heap, final(self).called == old(self).called, final(self).call_log == old(self).call_log, final(self).capture_stub == old(self).capture_stub, final(self).fiber.frames == old(self).fiber.frames,
-            final(self).constants == old(self).constants, final(self).builtin == old(self).builtin, final(self).queued == old(self).queued, final(self).cache == old(self).cache, final(self).heap == old(self).heap, final(self).called == old(self).called, final(self).call_log == old(self).call_log, final(self).capture_stub == old(self).capture_stub
+            final(self).constants == old(self).constants, final(self).builtin == old(self).builtin, final(self).queued == old(self).queued, final(self).cache == old(self).cache, final(self).heap == old(self).heap, final(self).called == old(self).called, final(self).call_log == old(self).call_log, final(self).capture_stub == old(self).capture_stub,
+            final(self).troots == old(self).troots
   { ExecutionSignal::RuntimeError }
 
   /// the 4-byte inline cache slot operand
@@ -543,7 +546,7 @@ impl Vm {
   pub fn set_error(&mut self, error: InstRef) -> (r: ExecutionSignal)
     ensures r == ExecutionSignal::RuntimeError, final(self).fiber.error == Some(error), final(self).raised == old(self).raised, final(self).ip == old(self).ip, final(self).ran == old(self).ran, final(self).fiber.stack == old(self).fiber.stack,
             final(self).fiber.handlers == old(self).fiber.handlers, final(self).fiber.frames == old(self).fiber.frames, final(self).constants == old(self).constants, final(self).builtin == old(self).builtin,
-            final(self).cache == old(self).cache, final(self).heap == old(self).heap, final(self).called == old(self).called, final(self).call_log == old(self).call_log, final(self).capture_stub == old(self).capture_stub
+            final(self).cache == old(self).cache, final(self).heap == old(self).heap, final(self).called == old(self).called, final(self).call_log == old(self).call_log, final(self).capture_stub == old(self).capture_stub, final(self).troots == old(self).troots
   { ExecutionSignal::RuntimeError }
 
   /// R9: `self.ip.offset_from(&instructions()[0])` — the byte offset of ip inside the current function
